@@ -288,7 +288,7 @@ OBLIGATIONS['C06'] += [('vwirehop::*', 'lemma')]
 # C06's wire hop (serialise the created message, parse it back, verify) is exercised end to end by an always-on bounded probe
 # (create -> to_vec -> from_slice -> verify, what both closures saw is compared); the encoders / decoders themselves are
 # obligations of C07, C09 and C11, so that a change to, say, what a decoder accepts is not reported for C06.
-for _p in ('C02', 'C07'):
+for _p in ('C02', 'C07', 'C04', 'C05', 'C06', 'C11'):
     OBLIGATIONS[_p] += [('header::Header::is_empty', 'body'), ('header::ProtectedHeader::is_empty', 'body')]
 
 # properties about panics / termination only: a function that fails nothing but postconditions does not count (patterns listed
